@@ -1,4 +1,5 @@
 #include <stdio.h>
+#include <string.h>
 #include "dpat.h"
 size_t d_in_len(int k, int i, int v) { static const size_t t[] = {0, 1, 3, 5, 2}; return t[(k + 2 * i + v) % 5]; }
 size_t d_out_cap(int k, int i, int v) { static const size_t t[] = {4, 0, 1, 6, 3}; return t[(k + i + 2 * v) % 5]; }
@@ -19,3 +20,8 @@ void L_hex(int idx, const void *p, size_t n) {
 }
 void L_u64(int idx, uint64_t x) { printf(" %d=u:%llx", idx, (unsigned long long)x); }
 void L_len(int idx, size_t n) { printf(" %d=len:%zu", idx, n); }
+double d_f64(int k, int i, int v, int salt) {
+  int n = (int)((unsigned)(k * 131 + i * 37 + v * 11 + salt * 5 + 3) % 4001u) - 2000;
+  return (double)n / 8.0;            /* |n| <= 2000: exact in float and double */
+}
+void L_f64(int idx, double x) { uint64_t b; memcpy(&b, &x, 8); printf(" %d=f:%llx", idx, (unsigned long long)b); }
